@@ -122,13 +122,17 @@ def bitsOfNat : Nat → Nat → List Bool
 `inputIdx` at position `k`, i.e. MSB first) -/
 def selBits (w i : Nat) : Bits := ofBools (bitsOfNat w i)
 
-def caseAlts (isLocal : Bool) (target : String) (w : Nat) (width : Nat) : Nat → List Expr → Alts
-  | _, [] => .cons none (.cons (assignStmt isLocal target (.str (List.replicate width .X))) .nil) .nil
-  | i, e :: rest => .cons (some (selBits w i)) (.cons (assignStmt isLocal target e) .nil) (caseAlts isLocal target w width (i + 1) rest)
+/-- the `WHEN OTHERS` value (`Process.cpp:822-834`): `"X…X"` for vector targets, `'X'` for a STD_LOGIC target -/
+def muxOthers (ctx : Ctx) (width : Nat) : Expr :=
+  if ctx == .slv || ctx == .uns then .str (List.replicate width .X) else .chr .X
+
+def caseAlts (isLocal : Bool) (target : String) (w : Nat) (xE : Expr) : Nat → List Expr → Alts
+  | _, [] => .cons none (.cons (assignStmt isLocal target xE) .nil) .nil
+  | i, e :: rest => .cons (some (selBits w i)) (.cons (assignStmt isLocal target e) .nil) (caseAlts isLocal target w xE (i + 1) rest)
 
 /-- n-ary multiplexer (`Process.cpp:798-838`): `CASE sel IS WHEN "…" => t := in_i; … WHEN OTHERS => t := "X…X"; END CASE` -/
-def muxCaseStmt (isLocal : Bool) (target : String) (selUns : Expr) (selWidth width : Nat) (ins : List Expr) : Stmt :=
-  .case selUns (caseAlts isLocal target selWidth width 0 ins)
+def muxCaseStmt (isLocal : Bool) (target : String) (selUns : Expr) (selWidth : Nat) (xE : Expr) (ins : List Expr) : Stmt :=
+  .case selUns (caseAlts isLocal target selWidth xE 0 ins)
 
 /-- priority conditional (`Process.cpp:844-880`): `IF c0 THEN t := v0 ELSIF c1 … ELSE t := default` -/
 def prioStmt (isLocal : Bool) (target : String) (dflt : Expr) : List (Expr × Expr) → Stmt
